@@ -1,0 +1,211 @@
+//go:build verif
+
+package consensus
+
+// Verification hooks for the element accumulator (properties C04/C05 of the
+// /verif framework). This file only re-exports unexported functions; it adds no
+// behaviour and is compiled only with `-tags verif`.
+
+import (
+	"go.sia.tech/core/types"
+)
+
+// A VerifLeaf is the exported mirror of elementLeaf: an element hash, a spent
+// flag and a pointer to the StateElement (leaf index and proof) that the
+// accumulator functions read and rewrite in place.
+type VerifLeaf struct {
+	SE          *types.StateElement
+	ElementHash types.Hash256
+	Spent       bool
+}
+
+func (l VerifLeaf) leaf() elementLeaf { return elementLeaf{l.SE, l.ElementHash, l.Spent} }
+
+func verifFromLeaf(l elementLeaf) VerifLeaf {
+	return VerifLeaf{l.StateElement, l.elementHash, l.spent}
+}
+
+func verifLeaves(ls []VerifLeaf) []elementLeaf {
+	out := make([]elementLeaf, len(ls))
+	for i := range ls {
+		out[i] = ls[i].leaf()
+	}
+	return out
+}
+
+func verifGroups(g *[64][]elementLeaf) (out [64][]VerifLeaf) {
+	for h := range g {
+		for _, l := range g[h] {
+			out[h] = append(out[h], verifFromLeaf(l))
+		}
+	}
+	return
+}
+
+func verifUngroups(g *[64][]VerifLeaf) (out [64][]elementLeaf) {
+	for h := range g {
+		for _, l := range g[h] {
+			out[h] = append(out[h], l.leaf())
+		}
+	}
+	return
+}
+
+// VerifMergeHeight exports mergeHeight.
+func VerifMergeHeight(x, y uint64) int { return mergeHeight(x, y) }
+
+// VerifClearBits exports clearBits.
+func VerifClearBits(x uint64, n int) uint64 { return clearBits(x, n) }
+
+// VerifProofRoot exports proofRoot.
+func VerifProofRoot(leafHash types.Hash256, leafIndex uint64, proof []types.Hash256) types.Hash256 {
+	return proofRoot(leafHash, leafIndex, proof)
+}
+
+// VerifLeafHash exports elementLeaf.hash.
+func VerifLeafHash(l VerifLeaf) types.Hash256 { return l.leaf().hash() }
+
+// VerifLeafProofRoot exports elementLeaf.proofRoot.
+func VerifLeafProofRoot(l VerifLeaf) types.Hash256 { return l.leaf().proofRoot() }
+
+// VerifHasTreeAtHeight exports hasTreeAtHeight.
+func (acc *ElementAccumulator) VerifHasTreeAtHeight(height int) bool {
+	return acc.hasTreeAtHeight(height)
+}
+
+// VerifContainsLeaf exports containsLeaf.
+func (acc *ElementAccumulator) VerifContainsLeaf(l VerifLeaf) bool {
+	return acc.containsLeaf(l.leaf())
+}
+
+// VerifAddLeaves exports addLeaves. The StateElements pointed to by the leaves
+// are rewritten in place (leaf index, proof).
+func (acc *ElementAccumulator) VerifAddLeaves(leaves []VerifLeaf) [64][]types.Hash256 {
+	return acc.addLeaves(verifLeaves(leaves))
+}
+
+// VerifUpdateLeaves exports updateLeaves.
+func VerifUpdateLeaves(leaves []VerifLeaf) [64][]VerifLeaf {
+	g := updateLeaves(verifLeaves(leaves))
+	return verifGroups(&g)
+}
+
+// VerifUpdateProof exports updateProof.
+func VerifUpdateProof(e *types.StateElement, updated *[64][]VerifLeaf) {
+	g := verifUngroups(updated)
+	updateProof(e, &g)
+}
+
+// A VerifApplyUpdate wraps elementApplyUpdate.
+type VerifApplyUpdate struct{ eau elementApplyUpdate }
+
+// VerifApplyBlock exports applyBlock.
+func (acc *ElementAccumulator) VerifApplyBlock(updated, added []VerifLeaf) VerifApplyUpdate {
+	return VerifApplyUpdate{acc.applyBlock(verifLeaves(updated), verifLeaves(added))}
+}
+
+// UpdateElementProof exports elementApplyUpdate.updateElementProof.
+func (u *VerifApplyUpdate) UpdateElementProof(e *types.StateElement) { u.eau.updateElementProof(e) }
+
+// Updated returns the updated leaves grouped by tree height.
+func (u *VerifApplyUpdate) Updated() [64][]VerifLeaf { return verifGroups(&u.eau.updated) }
+
+// TreeGrowth returns the tree growth hashes.
+func (u *VerifApplyUpdate) TreeGrowth() [64][]types.Hash256 { return u.eau.treeGrowth }
+
+// OldNumLeaves returns the leaf count before the block.
+func (u *VerifApplyUpdate) OldNumLeaves() uint64 { return u.eau.oldNumLeaves }
+
+// NumLeaves returns the leaf count after the block.
+func (u *VerifApplyUpdate) NumLeaves() uint64 { return u.eau.numLeaves }
+
+// A VerifRevertUpdate wraps elementRevertUpdate.
+type VerifRevertUpdate struct{ eru elementRevertUpdate }
+
+// VerifRevertBlock exports revertBlock.
+func (acc *ElementAccumulator) VerifRevertBlock(updated, added []VerifLeaf) VerifRevertUpdate {
+	return VerifRevertUpdate{acc.revertBlock(verifLeaves(updated), verifLeaves(added))}
+}
+
+// UpdateElementProof exports elementRevertUpdate.updateElementProof.
+func (u *VerifRevertUpdate) UpdateElementProof(e *types.StateElement) { u.eru.updateElementProof(e) }
+
+// Updated returns the updated leaves grouped by tree height.
+func (u *VerifRevertUpdate) Updated() [64][]VerifLeaf { return verifGroups(&u.eru.updated) }
+
+// NumLeaves returns the leaf count of the accumulator reverted to.
+func (u *VerifRevertUpdate) NumLeaves() uint64 { return u.eru.numLeaves }
+
+// Leaf constructors for the element kinds.
+
+// VerifChainIndexLeaf exports chainIndexLeaf.
+func VerifChainIndexLeaf(e *types.ChainIndexElement) VerifLeaf {
+	return verifFromLeaf(chainIndexLeaf(e))
+}
+
+// VerifSiacoinLeaf exports siacoinLeaf.
+func VerifSiacoinLeaf(e *types.SiacoinElement, spent bool) VerifLeaf {
+	return verifFromLeaf(siacoinLeaf(e, spent))
+}
+
+// VerifSiafundLeaf exports siafundLeaf.
+func VerifSiafundLeaf(e *types.SiafundElement, spent bool) VerifLeaf {
+	return verifFromLeaf(siafundLeaf(e, spent))
+}
+
+// VerifFileContractLeaf exports fileContractLeaf.
+func VerifFileContractLeaf(e *types.FileContractElement, rev *types.FileContract, spent bool) VerifLeaf {
+	return verifFromLeaf(fileContractLeaf(e, rev, spent))
+}
+
+// VerifV2FileContractLeaf exports v2FileContractLeaf.
+func VerifV2FileContractLeaf(e *types.V2FileContractElement, rev *types.V2FileContract, spent bool) VerifLeaf {
+	return verifFromLeaf(v2FileContractLeaf(e, rev, spent))
+}
+
+// VerifAttestationLeaf exports attestationLeaf.
+func VerifAttestationLeaf(e *types.AttestationElement) VerifLeaf {
+	return verifFromLeaf(attestationLeaf(e))
+}
+
+// Element-level membership checks used by validation.
+
+// VerifContainsChainIndex exports containsChainIndex.
+func (acc *ElementAccumulator) VerifContainsChainIndex(e types.ChainIndexElement) bool {
+	return acc.containsChainIndex(e)
+}
+
+// VerifContainsUnspentSiacoinElement exports containsUnspentSiacoinElement.
+func (acc *ElementAccumulator) VerifContainsUnspentSiacoinElement(e types.SiacoinElement) bool {
+	return acc.containsUnspentSiacoinElement(e)
+}
+
+// VerifContainsSpentSiacoinElement exports containsSpentSiacoinElement.
+func (acc *ElementAccumulator) VerifContainsSpentSiacoinElement(e types.SiacoinElement) bool {
+	return acc.containsSpentSiacoinElement(e)
+}
+
+// VerifContainsUnspentSiafundElement exports containsUnspentSiafundElement.
+func (acc *ElementAccumulator) VerifContainsUnspentSiafundElement(e types.SiafundElement) bool {
+	return acc.containsUnspentSiafundElement(e)
+}
+
+// VerifContainsSpentSiafundElement exports containsSpentSiafundElement.
+func (acc *ElementAccumulator) VerifContainsSpentSiafundElement(e types.SiafundElement) bool {
+	return acc.containsSpentSiafundElement(e)
+}
+
+// VerifContainsUnresolvedFileContractElement exports containsUnresolvedFileContractElement.
+func (acc *ElementAccumulator) VerifContainsUnresolvedFileContractElement(e types.FileContractElement) bool {
+	return acc.containsUnresolvedFileContractElement(e)
+}
+
+// VerifContainsUnresolvedV2FileContractElement exports containsUnresolvedV2FileContractElement.
+func (acc *ElementAccumulator) VerifContainsUnresolvedV2FileContractElement(e types.V2FileContractElement) bool {
+	return acc.containsUnresolvedV2FileContractElement(e)
+}
+
+// VerifContainsResolvedV2FileContractElement exports containsResolvedV2FileContractElement.
+func (acc *ElementAccumulator) VerifContainsResolvedV2FileContractElement(e types.V2FileContractElement) bool {
+	return acc.containsResolvedV2FileContractElement(e)
+}
